@@ -6,6 +6,7 @@
 //!   spanned <type> <doc>         a type with Spanned<..> wrappers against its erasure, with the
 //!                                document's own span tree                                   (C14, serde half)
 //!   spanned_fidelity <doc>       real `Spanned<T>` fields against their dynserde twin        (C14, serde half)
+//!   spanned_key_fidelity <doc>   real map keys Spanned<Newtype> / Spanned<Spanned<String>> / Newtype(Spanned<String>) / .. against their twin
 //!   routes <type> <doc> <val>    every decoding route on a document / single-value text    (C13)
 //!   routes_ser <type> <value>    the same on the text obtained by serializing the value    (C13)
 //!   tryfrom <type> <value>       Value/Table::try_from vs parse(to_string)                 (C13)
@@ -730,6 +731,90 @@ fn cmd_spanned_fidelity(args: &Args) -> String {
     out.join(" ")
 }
 
+/// real map KEY types with Spanned / newtype wrappers nested in every order, against their dynserde twin
+mod spanned_key_real {
+    use serde::Deserialize;
+    use serde_spanned::Spanned;
+    use std::collections::BTreeMap;
+    #[derive(Deserialize, Debug, PartialEq, Eq, PartialOrd, Ord)]
+    pub struct KW(pub String);
+    #[derive(Deserialize, Debug, PartialEq, Eq, PartialOrd, Ord)]
+    pub struct KWS(pub Spanned<String>);
+    #[derive(Deserialize, Debug)]
+    pub struct KeyFam {
+        pub m1: Option<BTreeMap<Spanned<KW>, i64>>,
+        pub m2: Option<BTreeMap<Spanned<Spanned<String>>, i64>>,
+        pub m3: Option<BTreeMap<KWS, i64>>,
+        pub m4: Option<BTreeMap<Spanned<KWS>, i64>>,
+    }
+}
+
+fn cmd_spanned_key_fidelity(args: &Args) -> String {
+    use spanned_key_real::*;
+    let doc = match args.first().map(|a| arg_str(a)) {
+        Some(Ok(s)) => s,
+        _ => return "BADCASE args".into(),
+    };
+    // the twin: S{m1: O M (Y N KW s) i64, m2: O M (Y Y s) i64, m3: O M (N KWS Y s) i64, m4: O M (Y N KWS Y s) i64}
+    let tys = "S4,4b657946616d,6d31,O,M,Y,N,4b57,s,i64,6d32,O,M,Y,Y,s,i64,6d33,O,M,N,4b5753,Y,s,i64,6d34,O,M,Y,N,4b5753,Y,s,i64";
+    let ty = Rc::new(parse_type(tys).expect("twin type"));
+    fn sp<T>(s: &serde_spanned::Spanned<T>, v: Dyn) -> Dyn {
+        Dyn::Spanned(s.span().start, s.span().end, Box::new(v))
+    }
+    let opt = |m: Option<Vec<(Dyn, Dyn)>>| match m {
+        None => Dyn::None,
+        Some(es) => Dyn::Some(Box::new(Dyn::Map(es))),
+    };
+    let to_dyn = |w: &KeyFam| {
+        Dyn::Rec(vec![
+            opt(w.m1.as_ref().map(|m| {
+                m.iter().map(|(k, v)| (sp(k, Dyn::Newtype(Box::new(Dyn::Str(k.get_ref().0.clone())))), Dyn::Int(*v as i128))).collect()
+            })),
+            opt(w.m2.as_ref().map(|m| {
+                m.iter().map(|(k, v)| (sp(k, sp(k.get_ref(), Dyn::Str(k.get_ref().get_ref().clone()))), Dyn::Int(*v as i128))).collect()
+            })),
+            opt(w.m3.as_ref().map(|m| {
+                m.iter().map(|(k, v)| (Dyn::Newtype(Box::new(sp(&k.0, Dyn::Str(k.0.get_ref().clone())))), Dyn::Int(*v as i128))).collect()
+            })),
+            opt(w.m4.as_ref().map(|m| {
+                m.iter()
+                    .map(|(k, v)| {
+                        let inner = &k.get_ref().0;
+                        (sp(k, Dyn::Newtype(Box::new(sp(inner, Dyn::Str(inner.get_ref().clone()))))), Dyn::Int(*v as i128))
+                    })
+                    .collect()
+            })),
+        ])
+    };
+    let mut out = Vec::new();
+    for (name, route) in [("t", 0usize), ("e", 1usize)] {
+        let real: Result<KeyFam, String> = decode_doc::<KeyFam>(route, doc);
+        let twin = with_type(&ty, || decode_doc::<DynOwned>(route, doc));
+        let verdict = match (&real, &twin) {
+            (Err(a), Err(b)) => {
+                if a == b {
+                    "same-err".to_string()
+                } else {
+                    format!("DIFF-ERR:{}/{}", hex(a.as_bytes()), hex(b.as_bytes()))
+                }
+            }
+            (Ok(w), Ok(d)) => {
+                let a = dyn_string(&to_dyn(w));
+                let b = dyn_string(&d.0);
+                if a == b {
+                    "same-ok".to_string()
+                } else {
+                    format!("DIFF:{a}/{b}")
+                }
+            }
+            (Ok(_), Err(b)) => format!("DIFF:real-ok/twin-err:{}", hex(b.as_bytes())),
+            (Err(a), Ok(_)) => format!("DIFF:real-err:{}/twin-ok", hex(a.as_bytes())),
+        };
+        out.push(format!("{name}={verdict}"));
+    }
+    out.join(" ")
+}
+
 fn run_cmd(cmd: &str, args: &Args) -> String {
     match cmd {
         "fidelity" => cmd_fidelity(args),
@@ -737,6 +822,7 @@ fn run_cmd(cmd: &str, args: &Args) -> String {
         "consts" => cmd_consts(),
         "spanned" => cmd_spanned(args),
         "spanned_fidelity" => cmd_spanned_fidelity(args),
+        "spanned_key_fidelity" => cmd_spanned_key_fidelity(args),
         "routes" => cmd_routes(args),
         "routes_ser" => cmd_routes_ser(args),
         "tryfrom" => cmd_tryfrom(args),
